@@ -53,6 +53,8 @@ def mutants_of(path, text):
         if re.match(r'^\s*(self\.)?[a-z_\.]+\([^;]*\);\s*$', l) and 'let ' not in l and 'return' not in l:
             out.append((i, 'delete-statement', '\n'.join(lines[:i] + [l[:len(l)-len(l.lstrip())] + ';'] + lines[i+1:]), l.strip(), ';'))
     return out
+def checks_str(r):
+    return ', '.join(k + ':' + str(v['exit']) for k, v in r['checks'].items())
 def sh(cmd, cwd=None, env=None, timeout=900):
     try:
         r = subprocess.run(cmd, cwd=cwd, env=env, capture_output=True, text=True, timeout=timeout)
@@ -134,6 +136,6 @@ with open('/verif/mutants/MUTLAB.md', 'w') as fo:
     fo.write(f'# Mutation lab\n\n{len(results)} syntactic mutants; {sum(1 for r in results if r["status"]=="does not compile")} do not compile; {sum(1 for r in results if r["status"].startswith("killed"))} killed by the repository suite; {len(surv)} survive it, of which {sum(1 for r in surv if r.get("caught"))} are caught by the quick checks mapped to the file.\n\n## Survivors of the suite that the mapped checks did not catch\n\n| file:line | operator | before | after | checks run |\n|---|---|---|---|---|\n')
     for r in surv:
         if not r.get('caught'):
-            fo.write(f"| {r['file']}:{r['line']} | `{r['op']}` | `{r['old'][:80]}` | `{r['new'][:80]}` | {', '.join(f'{k}:{v['exit']}' for k, v in r['checks'].items())} |\n")
+            fo.write(f"| {r['file']}:{r['line']} | `{r['op']}` | `{r['old'][:80]}` | `{r['new'][:80]}` | {checks_str(r)} |\n")
 shutil.rmtree(ROOT, ignore_errors=True)
 print('written mutants/MUTLAB.md')
